@@ -15,7 +15,7 @@ use std::collections::HashSet;
 use std::time::Duration;
 
 #[derive(Clone, Debug)]
-pub struct Mods { pub ctrls: Option<Vec<(Vec<u8>, bool, Option<Vec<u8>>)>>, pub timeout: Option<u64>, pub opts: Option<(i64, bool, i64, i64)> }
+pub struct Mods { pub ctrls: Option<Vec<(Vec<u8>, bool, Option<Vec<u8>>)>>, pub timeout: Option<u64>, pub opts: Option<(i64, bool, i64, i64)>, pub withheld: bool }
 #[derive(Clone, Debug)]
 pub enum Op {
     Bind(Vec<u8>, Vec<u8>), Sasl, Search(Vec<u8>, i64, Vec<u8>, Vec<Vec<u8>>), Add(Vec<u8>, Vec<(Vec<u8>, Vec<Vec<u8>>)>), Compare(Vec<u8>, Vec<u8>, Vec<u8>), Delete(Vec<u8>),
@@ -26,7 +26,7 @@ fn hexlist(v: &[Vec<u8>]) -> String { if v.is_empty() { "~".into() } else { v.it
 fn unhexlist(s: &str) -> Vec<Vec<u8>> { if s == "~" { vec![] } else { s.split(',').map(unhex).collect() } }
 
 pub fn show_mods(m: &Mods) -> String {
-    format!("m:{}:{}:{}",
+    format!("{}:{}:{}:{}", if m.withheld { "M" } else { "m" },
         match &m.ctrls { None => "none".to_string(), Some(cs) if cs.is_empty() => "~".into(), Some(cs) => cs.iter().map(|(o, c, v)| format!("{}.{}.{}", hex(o), if *c { 1 } else { 0 }, opt_hex(v))).collect::<Vec<_>>().join(";") },
         match m.timeout { None => "none".to_string(), Some(t) => t.to_string() },
         match m.opts { None => "none".to_string(), Some((d, t, tl, sl)) => format!("{}.{}.{}.{}", d, if t { 1 } else { 0 }, tl, sl) })
@@ -34,6 +34,7 @@ pub fn show_mods(m: &Mods) -> String {
 pub fn parse_mods(s: &str) -> Mods {
     let f: Vec<&str> = s.split(':').collect();
     Mods {
+        withheld: f[0] == "M",
         ctrls: match f[1] { "none" => None, "~" => Some(vec![]), cs => Some(cs.split(';').map(|c| { let p: Vec<&str> = c.split('.').collect(); (unhex(p[0]), p[1] == "1", un_opt_hex(p[2])) }).collect()) },
         timeout: if f[2] == "none" { None } else { Some(f[2].parse().unwrap()) },
         opts: if f[3] == "none" { None } else { let p: Vec<&str> = f[3].split('.').collect(); Some((p[0].parse().unwrap(), p[1] == "1", p[2].parse().unwrap(), p[3].parse().unwrap())) },
@@ -77,6 +78,7 @@ fn rvals(rng: &mut Rng, allow_empty: bool) -> Vec<Vec<u8>> {
 }
 pub fn rand_mods(rng: &mut Rng) -> Mods {
     Mods {
+        withheld: false,
         ctrls: if rng.chance(1, 3) { Some((0..rng.below(4)).map(|i| (format!("1.2.840.{}", 100 + i).into_bytes(), rng.chance(1, 2), if rng.chance(1, 2) { Some(rng.bytes(4)) } else { None })).collect()) } else { None },
         timeout: if rng.chance(1, 5) { Some(1000 + rng.below(5000)) } else { None },
         opts: if rng.chance(1, 3) { Some((rng.below(4) as i64, rng.chance(1, 2), *rng.pick(&[0i64, 1, 127, 128, 3600, 65536]), *rng.pick(&[0i64, 7, 255, 256, 100000]))) } else { None },
@@ -102,12 +104,17 @@ pub fn gen(rng: &mut Rng, n: usize, out: &mut Vec<String>) {
         let k = 1 + rng.below(6) as usize;
         let mut toks = vec![];
         for j in 0..k {
-            let m = rand_mods(rng);
+            let mut m = rand_mods(rng);
             let o = if j == k - 1 && rng.chance(1, 10) { Op::Unbind } else { rand_op(rng) };
+            // one call in eight gets no answer and ends in a timeout (its modifiers are spent all the same)
+            if j + 1 < k && rng.chance(1, 8) && !matches!(o, Op::Abandon(_) | Op::Unbind) { m.withheld = true; if m.timeout.is_none() { m.timeout = Some(1000 + rng.below(3000)); } }
             toks.push(show_mods(&m)); toks.push(show_op(&o));
         }
         out.push(format!("req {}", toks.join(" ")));
     }
+    // a timed-out operation in the middle: what it carried must not reach the next operation
+    out.push("req M:none:1500:3.1.9.7 delete/64633d78 m:none:none:none search/64633d78/2/28613d6229/~".into());
+    out.push("req M:312e32.1.none:1500:none compare/64633d78/636e/78 m:none:none:none delete/64633d78".into());
     // the recorded witnesses of F10 / F11
     out.push("req m:none:none:3.0.0.7 delete/64633d78 m:none:none:none search/64633d78/2/28613d6229/~".into());
     out.push("req m:312e32.1.none:none:none add/64633d78/61=~ m:none:none:none delete/64633d78".into());
@@ -125,7 +132,7 @@ fn canon(t: &StructureTag) -> StructureTag {
 }
 fn s(b: &[u8]) -> String { String::from_utf8_lossy(b).into_owned() }
 
-async fn server_task(mut sess_server: tokio::io::DuplexStream, log: std::sync::Arc<std::sync::Mutex<Vec<Vec<u8>>>>) {
+async fn server_task(mut sess_server: tokio::io::DuplexStream, log: std::sync::Arc<std::sync::Mutex<Vec<Vec<u8>>>>, silent: std::sync::Arc<std::sync::Mutex<HashSet<i64>>>) {
     use tokio::io::{AsyncReadExt, AsyncWriteExt};
     let mut inbuf: Vec<u8> = vec![]; let mut buf = vec![0u8; 65536];
     loop {
@@ -140,6 +147,7 @@ async fn server_task(mut sess_server: tokio::io::DuplexStream, log: std::sync::A
             if let PL::C(k) = &t.payload { if k.len() >= 2 {
                 let id = match &k[0].payload { PL::P(v) => ownber::twos(v).unwrap_or(0) as i64, _ => 0 };
                 let reply = match k[1].id { 0 => Some(1u64), 3 => Some(5), 6 => Some(7), 8 => Some(9), 10 => Some(11), 12 => Some(13), 14 => Some(15), 23 => Some(24), _ => None };
+                if silent.lock().unwrap().contains(&id) { continue; }
                 if let Some(app) = reply { let mut e = vec![]; ownber::write(&message(id, ldap_result(app, if app == 15 { 6 } else { 0 }, b"", b"", None), None), &mut e, &mut |_| 0); if sess_server.write_all(&e).await.is_err() { return; } }
             } }
         }
@@ -152,7 +160,8 @@ pub fn run(_lane: &str, args: &[&str]) -> (String, Option<String>) {
     let res = std::panic::catch_unwind(std::panic::AssertUnwindSafe(|| rt.block_on(async {
         let Sess { mut ldap, server, driver: _driver, .. } = new_sess();
         let log = std::sync::Arc::new(std::sync::Mutex::new(vec![]));
-        tokio::spawn(server_task(server, log.clone()));
+        let silent = std::sync::Arc::new(std::sync::Mutex::new(HashSet::new()));
+        tokio::spawn(server_task(server, log.clone(), silent.clone()));
         let mut outs: Vec<String> = vec![]; let mut oracle: Option<String> = None; let mut next_id = 1i64;
         for (m, op) in &calls {
             if let Some(cs) = &m.ctrls { ldap.with_controls(cs.iter().map(|(o, c, v)| RawControl { ctype: s(o), crit: *c, val: v.clone() }).collect::<Vec<_>>()); }
@@ -161,6 +170,7 @@ pub fn run(_lane: &str, args: &[&str]) -> (String, Option<String>) {
                 let de = match d { 0 => DerefAliases::Never, 1 => DerefAliases::Searching, 2 => DerefAliases::Finding, _ => DerefAliases::Always };
                 ldap.with_search_options(SearchOptions::new().deref(de).typesonly(ty).timelimit(tl as i32).sizelimit(sl as i32));
             }
+            if m.withheld { silent.lock().unwrap().insert(next_id); }
             let before = log.lock().unwrap().len();
             let sent_err: Option<String> = match op {
                 Op::Bind(d, p) => ldap.simple_bind(&s(d), &s(p)).await.err().map(|e| err_class(&e).to_string()),
@@ -181,7 +191,7 @@ pub fn run(_lane: &str, args: &[&str]) -> (String, Option<String>) {
             let reqs: Vec<Vec<u8>> = log.lock().unwrap()[before..].to_vec();
             if reqs.len() > 1 { outs.push(format!("several-requests:{}", reqs.len())); oracle.get_or_insert("one call wrote more than one LDAPMessage".into()); continue; }
             match reqs.first() {
-                None => { outs.push("local-error".into());
+                None => { outs.push("local-error".into()); silent.lock().unwrap().remove(&next_id);
                     let expect_local = matches!(op, Op::Add(_, avs) if avs.iter().any(|(_, v)| v.is_empty())) || matches!(op, Op::Modify(_, ms) if ms.iter().any(|(k, _, v)| *k == 0 && v.is_empty()))
                         || matches!(op, Op::Search(_, _, f, _) if ownfilter::parse(f).tree.is_none());
                     if !expect_local { oracle.get_or_insert(format!("no request was written for {} (error class {:?})", show_op(op), sent_err)); } }
